@@ -11,7 +11,7 @@ import z3
 
 from . import terms as T
 from . import arrays as A
-from .terms import EngineError, PyExc, N, ctx
+from .terms import EngineError, PyExc, N, ctx, Q
 from .arrays import BArr, CArr, is_arr
 
 REPO_ROOT = os.environ.get('PYVC_REPO', '/repo')
@@ -75,6 +75,35 @@ class BoundMethod:
         self.obj, self.func = obj, func
 
 
+class MemoFn:
+    """A module-level function wrapped by a memoising decorator."""
+    def __init__(self, func):
+        self.func = func
+        self.qualname = func.qualname
+
+    def __repr__(self):
+        return '<memo %s>' % self.func.qualname
+
+
+class SymKey:
+    """Dictionary key that is not a plain str/int/bool/None: tuples, symbolic numbers, array bytes.  Hash by identity; equality with
+    other keys is decided structurally by Interp.key_eq (a fork when it depends on symbolic values)."""
+    def __init__(self, value):
+        self.value = value
+
+    def __repr__(self):
+        return 'SymKey(%r)' % (self.value,)
+
+
+class BytesVal:
+    """ndarray.tobytes(): the content of an array as a hashable value (equal iff same dtype, length and elements)."""
+    def __init__(self, arr):
+        self.arr = arr
+
+    def __repr__(self):
+        return '<bytes of %r>' % (self.arr,)
+
+
 class ClassVal:
     def __init__(self, qualname, node, module):
         self.qualname, self.node, self.module = qualname, node, module
@@ -109,6 +138,10 @@ class ClassVal:
                         m[st.name] = ('property', old[1] if old and old[0] == 'property' else None, fv)
                     elif 'staticmethod' in decos:
                         m[st.name] = ('static', fv)
+                    elif any(d in ('functools.cached_property', 'cached_property') for d in decos):
+                        m[st.name] = ('cached_property', fv, None)
+                    elif decos:
+                        raise EngineError('decorator %s on %s.%s is not modelled' % (decos, self.qualname, st.name))
                     else:
                         m[st.name] = ('method', fv)
                 elif isinstance(st, ast.Assign):
@@ -236,6 +269,7 @@ class RepoModule:
         self.tree = ast.parse(src, self.file)
         self.globals = {}
         self.defs = {}
+        self.assigned = set()                       # names bound by module-level assignments / `global` writes: re-evaluated on every path
         for st in self.tree.body:
             if isinstance(st, ast.FunctionDef):
                 self.defs[st.name] = st          # later definitions override earlier ones (python semantics)
@@ -262,6 +296,8 @@ class RepoModule:
             st = self.defs[name]
             qn = self.name + '.' + name
             v = FuncVal(qn, st, self) if isinstance(st, ast.FunctionDef) else ClassVal(qn, st, self)
+            if isinstance(st, ast.FunctionDef) and st.decorator_list:
+                v = self.interp.decorate(v, st)
             self.globals[name] = v
             return v
         # module level imports / simple assignments, resolved lazily
@@ -293,6 +329,8 @@ class RepoModule:
                     and st.targets[0].id == name:
                 v = self.interp.eval_in_module(st.value, self)
                 self.globals[name] = v
+                self.assigned.add(name)
+                self.interp.note_module_object(v)
                 return v
         if self.is_pkg:
             sub = self.interp.try_repo_module(self.name + '.' + name)
@@ -321,6 +359,9 @@ class Interp:
         self.feas_timeout = int(os.environ.get("PYVC_FEAS_MS", "400"))
         self.store_hook = None                   # optional callback(target array value) for frame analysis
         self.lookup_busy = set()
+        self.module_objs = {}                    # id -> object: containers created by module-level assignments (hidden state between calls)
+        self.memo_tables = {}                    # qualname -> dict: tables of memoising decorators (functools.lru_cache / cache)
+        self.module_state_written = False        # this path wrote state that outlives the call (module containers, globals, memo tables)
         T.DECIDER = self.decide
         lib.interp = self
 
@@ -367,6 +408,51 @@ class Interp:
                     return sub
                 raise PyExc('ImportError', 'cannot import name %s from %s' % (name, modname))
         return self.lib.getattr(m, name)
+
+    # ------------------------------------------------------------------------ state that outlives a call
+    def reset_module_state(self):
+        """Start of a path: module-level assignments are re-evaluated (a path must not see what an earlier PATH stored)."""
+        for m in self.modules.values():
+            if isinstance(m, RepoModule) and m.globals is not None:
+                for nm in list(getattr(m, 'assigned', ())):
+                    m.globals.pop(nm, None)
+                m.assigned = set()
+        self.module_objs = {}
+        self.memo_tables = {}
+        self.module_state_written = False
+
+    def note_module_object(self, v, depth=0):
+        if isinstance(v, (dict, list)) or is_arr(v) or isinstance(v, ObjVal):
+            self.module_objs[id(v)] = v
+            if depth < 2 and isinstance(v, (dict, list)):
+                for el in (v.values() if isinstance(v, dict) else v):
+                    self.note_module_object(el, depth + 1)
+
+    def decorate(self, fv, node):
+        for d in node.decorator_list:
+            txt = ast.unparse(d)
+            head = txt.split('(')[0]
+            if head in ('functools.lru_cache', 'lru_cache', 'functools.cache', 'cache'):
+                fv = MemoFn(fv)
+            else:
+                raise EngineError('decorator %s on %s is not modelled' % (txt, fv.qualname))
+        return fv
+
+    def call_memo(self, f, args, kwargs):
+        """functools.lru_cache / cache: a table keyed by the call's arguments (eviction not modelled: an evicted entry behaves
+        like a first call, which the history-free run covers)."""
+        table = self.memo_tables.setdefault(f.func.qualname, {})
+        key = tuple(args) + tuple((k, kwargs[k]) for k in sorted(kwargs))
+        for a in key:
+            if is_arr(a) or isinstance(a, (list, dict)):
+                raise PyExc('TypeError', 'unhashable type')
+        found = self.find_key(table, key)
+        if found is not None:
+            return table[found]
+        v = self.call_function(f.func, list(args), dict(kwargs))
+        table[self.new_key(key)] = v
+        self.module_state_written = True
+        return v
 
     def eval_in_module(self, expr, module):
         fr = Frame(FuncVal(module.name + '.<module>', None, module), {})
@@ -517,6 +603,8 @@ class Interp:
             return self.call_function(f, args, kwargs)
         if isinstance(f, BoundMethod):
             return self.call_function(f.func, [f.obj] + list(args), kwargs)
+        if isinstance(f, MemoFn):
+            return self.call_memo(f, args, kwargs)
         if isinstance(f, ClassVal):
             return self.instantiate(f, args, kwargs)
         if isinstance(f, ExcClass):
@@ -663,6 +751,11 @@ class Interp:
                 raise PyExc('AssertionError', 'line %d' % s.lineno)
             return
         if isinstance(s, ast.Pass):
+            return
+        if isinstance(s, ast.Global):
+            if not hasattr(fr, 'global_names'):
+                fr.global_names = set()
+            fr.global_names.update(s.names)
             return
         if isinstance(s, ast.Break):
             raise BreakSig()
@@ -957,6 +1050,14 @@ class Interp:
     # ------------------------------------------------------------------------------------------ assignment
     def assign(self, t, v, fr):
         if isinstance(t, ast.Name):
+            if t.id in getattr(fr, 'global_names', ()):
+                m = fr.func.module
+                m.load()
+                m.globals[t.id] = v
+                m.assigned.add(t.id)
+                self.note_module_object(v)
+                self.module_state_written = True
+                return
             fr.locals[t.id] = v
             return
         if isinstance(t, (ast.Tuple, ast.List)):
@@ -1036,17 +1137,80 @@ class Interp:
             base[i] = v
             return
         if isinstance(base, dict):
-            base[self.dict_key(idx)] = v
+            if id(base) in self.module_objs:
+                self.module_state_written = True
+            found = self.find_key(base, idx)
+            base[found if found is not None else self.new_key(idx)] = v
             return
         raise PyExc('TypeError', '%s object does not support item assignment' % type(base).__name__)
 
-    def dict_key(self, k):
+    def dict_key(self, k, container=None):
+        """The key object under which k is (or would be) stored in `container`."""
+        if container is not None:
+            found = self.find_key(container, k)
+            if found is not None:
+                return found
+        return self.new_key(k)
+
+    def _raw_key(self, k):
         k = N(k) if T.is_scalar(k) else k
         if isinstance(k, (str, int, bool)) or k is None:
-            return k
+            return True, k
         if T.is_ratnum(k):
-            return ('q', str(k))
-        raise EngineError('symbolic dictionary key')
+            return True, ('q', str(k))
+        return False, k
+
+    def new_key(self, k):
+        ok, rk = self._raw_key(k)
+        if ok:
+            return rk
+        if is_arr(k) or isinstance(k, (list, dict)):
+            raise PyExc('TypeError', 'unhashable type')
+        return SymKey(k)
+
+    def key_eq(self, a, b):
+        """Python equality of two hashable key values: a python bool or a symbolic Bool."""
+        if isinstance(a, SymKey):
+            a = a.value
+        if isinstance(b, SymKey):
+            b = b.value
+        if isinstance(a, tuple) and len(a) == 2 and isinstance(a[0], str) and a[0] == 'q' and isinstance(a[1], str):
+            a = Q(a[1])
+        if isinstance(b, tuple) and len(b) == 2 and isinstance(b[0], str) and b[0] == 'q' and isinstance(b[1], str):
+            b = Q(b[1])
+        if isinstance(a, (tuple, list)) or isinstance(b, (tuple, list)):
+            if not (isinstance(a, tuple) and isinstance(b, tuple)) or len(a) != len(b):
+                return False
+            return T.sand(*[self.key_eq(x, y) for x, y in zip(a, b)]) if a else True
+        if isinstance(a, BytesVal) or isinstance(b, BytesVal):
+            if not (isinstance(a, BytesVal) and isinstance(b, BytesVal)):
+                return False
+            return self.lib.bytes_eq(a, b)
+        if isinstance(a, str) or isinstance(b, str) or a is None or b is None:
+            return (a == b) if type(a) == type(b) else False
+        if isinstance(a, (ObjVal, FuncVal, ClassVal)) or isinstance(b, (ObjVal, FuncVal, ClassVal)):
+            return a is b
+        if T.is_scalar(a) and T.is_scalar(b):
+            return T.seq(a, b)
+        raise EngineError('equality of dictionary keys %r / %r not modelled' % (a, b))
+
+    def find_key(self, container, k):
+        ok, rk = self._raw_key(k)
+        if ok and rk in container:
+            return rk
+        if is_arr(k) or isinstance(k, (list, dict)):
+            raise PyExc('TypeError', 'unhashable type')
+        for sk in list(container.keys()):
+            if ok and not isinstance(sk, SymKey):
+                continue                                    # two plain keys: python equality already decided above
+            c = self.key_eq(k, sk)
+            if c is True:
+                return sk
+            if c is False:
+                continue
+            if self.fork(c, 'dict-key-equal'):
+                return sk
+        return None
 
     # ------------------------------------------------------------------------------------------ attributes
     def get_attr(self, obj, name):
@@ -1066,6 +1230,11 @@ class Interp:
                 if mem[1] is None:
                     raise PyExc('AttributeError', 'unreadable attribute %s' % name)
                 return self.call_function(mem[1], [obj], {})
+            if mem[0] == 'cached_property':
+                # functools.cached_property: computed once, then an instance attribute of the same name
+                v = self.call_function(mem[1], [obj], {})
+                obj.attrs[name] = v
+                return v
             if mem[0] == 'attr':
                 return self.eval_in_module(mem[1], c.module)
         if isinstance(obj, SuperVal):
@@ -1121,7 +1290,7 @@ class Interp:
 
     # ----------------------------------------------------------------------------------------- expressions
     def lookup(self, name, fr):
-        if name in fr.locals:
+        if name in fr.locals and name not in getattr(fr, 'global_names', ()):
             return fr.locals[name]
         try:
             return fr.func.module.lookup(name)
@@ -1158,7 +1327,7 @@ class Interp:
         if isinstance(e, ast.List):
             return [self.ev(x, fr) for x in e.elts]
         if isinstance(e, ast.Dict):
-            return {self.dict_key(self.ev(k, fr)): self.ev(v, fr) for k, v in zip(e.keys, e.values)}
+            return {self.new_key(self.ev(k, fr)): self.ev(v, fr) for k, v in zip(e.keys, e.values)}
         if isinstance(e, ast.Attribute):
             return self.get_attr(self.ev(e.value, fr), e.attr)
         if isinstance(e, ast.UnaryOp):
@@ -1251,10 +1420,11 @@ class Interp:
                 continue
             # symbolic operand: fork (python short-circuit semantics)
             d = self.fork(c, 'boolop@%d' % e.lineno)
+            # python returns the OPERAND that decided the result (`n or npts` is n when n is truthy), not a boolean
             if is_and and not d:
-                return False
+                return False if T.is_bool_like(N(val) if T.is_scalar(val) else val) else val
             if not is_and and d:
-                return True
+                return True if T.is_bool_like(N(val) if T.is_scalar(val) else val) else val
         return val
 
     def compare(self, e, fr):
@@ -1295,7 +1465,7 @@ class Interp:
 
     def contains(self, container, x):
         if isinstance(container, dict):
-            return self.dict_key(x) in container
+            return self.find_key(container, x) is not None
         if isinstance(container, (list, tuple)):
             out = False
             for el in container:
